@@ -93,4 +93,11 @@ func init() {
 		Assumptions: commonAssumptions,
 		Rules:       []string{"C06/ctx", "C06/one-reader", "C06/order", "C06/closed-value", "C06/let-mode", "C06/after-query", "C06/copy"},
 	}, ruleC06)
+	register(PropertyMeta{
+		ID:          "C03",
+		Level:       "other",
+		Explanation: "Decided: (kinds) the parser's join-kind table equals the documented {inner, innerunique, leftouter}, the compiler has a case for each, the default is innerunique, an unknown kind is an error, and - on the derived grammar of the join source, with path facts on the kind variable - SELECT DISTINCT wraps the left side exactly for innerunique, `JOIN` is written for inner/innerunique and `LEFT JOIN` for leftouter; (sides) the left input's subquery index is saved before the parenthesised pipeline is compiled by a recursive call on op.Right and never reassigned, the right input is the last subquery that recursion appended, and these are the names written on the two sides; (rewrite) a bare column name becomes $left.k == $right.k (same column, unquoted aliases), only for unquoted unqualified non-constant identifiers, and all conditions are left-folded with `and`; (gate) the ON condition is written in join mode and the plain `=` is written only when path facts show one operand mentions $left and one $right (hasJoinTerms, which relies on Walk: C11). Not decided: join result equality on databases.",
+		Assumptions: commonAssumptions,
+		Rules:       []string{"C03/kinds", "C03/sides", "C03/rewrite", "C03/gate"},
+	}, ruleC03)
 }
